@@ -357,5 +357,17 @@ def r_shared_r10(ctx):
 
 EXPLANATION = EXPLANATION + ' (R10) the receiver drops a message before dispatch only as a duplicate it has really seen (shared C05.R8): the datagram that carried it is acknowledged either way, so any other drop turns into a success report for a message the peer never accepted.'
 
+def r_shared_r11(ctx):
+    """a guaranteed send ends with True: the retry chain re-queues on every failure until the first success, fragments are re-sent
+    while the caller's mode is not NONE and that remembered mode never changes (shared C05.R3)"""
+    from . import c05 as _m
+    from .c02 import _Sub
+    _m.r3(_Sub(ctx, "C07.R11"))
+
+
+EXPLANATION = EXPLANATION + (' (R11) the chain that makes a guaranteed send end with True is intact (shared C05.R3): RetrySender re-queues on every failure '
+                             'until the first success, FragmentSender re-sends a failed fragment while the mode it was constructed with is not NONE, and nothing '
+                             'but the constructors writes a retry mode.')
+
 RULES = [("C07.R1", r1), ("C07.R2", r2), ("C07.R3", r3), ("C07.R4", r4), ("C07.R5", r_enum), ("C07.R6", r6), ("C07.R7", r7), ("C07.R8", r_shared_r8), ("C07.R9", r_shared_r9),
-         ("C07.R10", r_shared_r10)]
+         ("C07.R10", r_shared_r10), ("C07.R11", r_shared_r11)]
